@@ -19,8 +19,8 @@ META = {
     'note': 'The bottom process carries a listed name itself in half of the cases (self must not count).',
 }
 NATIVE = os.path.join(VERIF, 'native')
-NAMES = [b'', b'a', b'a b', b'(x)', b'x)', b')(', b'fifteen_bytes_n', b'cron', b'cro', b'crond', b'l\nf', b' lead', b'trail ', b'a) S 1 \n']
-ITEMS = NAMES + [b'', b'sixteen_bytes_nam', b'n' * 40, b'a) S 1 (b']
+NAMES = [b'', b'a', b'a b', b'(x)', b'x)', b')(', b'fifteen_bytes_n', b'cron', b'cro', b'crond', b'l\nf', b' lead', b'trail ', b'a) S 1 \n', b'irq/9-a']
+ITEMS = NAMES + [b'', b'sixteen_bytes_nam', b'n' * 40, b'a) S 1 (b', b'pool/a', b'/usr/sbin/cron', b'9-a', b'irq/']
 
 
 def run(ck):
